@@ -222,7 +222,19 @@ def gen_nexus(rng, size, with_chars=None, like=None):
     tt = TreeText(rng, cfg)
     opts = gen_opts(rng, "nexus") if like is None else dict(like["opts"])
     UNDERSCORES_ARE_SPACES[0] = not opts.get("preserve_underscores")
-    if like is not None:
+    if like is not None and like.get("fresh_layout"):
+        # a second source with a layout of its OWN (same reader options only): no TAXA block - a TAXA block read into a
+        # populated namespace is a listed known finding - and a taxon pool that overlaps the first source's, so that the
+        # file introduces new taxa (in tree statements and, with TRANSLATE, in the table) next to known ones
+        old = list(like["pool"])
+        keep = rng.sample(old, rng.randint(0, min(len(old), 3)))
+        new_labels = [l for l in POOL if l not in old and l.lower() not in [o.lower() for o in old]]
+        pool = keep + rng.sample(new_labels, rng.randint(1, min(len(new_labels), 4))) if new_labels else keep or old[:2]
+        rng.shuffle(pool)
+        if len(pool) < 2:
+            pool = (pool + old)[:2]
+        have_taxa, taxa_title = False, None
+    elif like is not None:
         pool, have_taxa, taxa_title = list(like["pool"]), like["taxa_block"], like["taxa_title"]
         # same TAXLABELS order: taxon *numbers* in tree statements are resolved against the position in the namespace
     else:
